@@ -167,6 +167,16 @@ def cases(draw, tier):
                 ops.append({'k': 'nested', 'prog': outer})
             elif k == 'dirty':
                 ops.append({'k': 'dirty', 'prog': draw(dirty_prog())})
+                if draw(st.booleans()):
+                    # a simulation that is cut short (by a failure, by `till`) before a date that one of its activities waits
+                    # for, followed by one that waits for the same date (the same condition object) and gets there
+                    D = draw(st.sampled_from([2, 3.5, 5]))
+                    kind_ = draw(st.sampled_from(['at_ge', 'at_eq']))
+                    waiter = {'name': 'a1', 'steps': [{'op': kind_, 't': D}, {'op': 'sleep', 'd': 0.5}]}
+                    cut = {'start': 0, 'objs': {}, 'roots': [copy.deepcopy(waiter), {'name': 'a2', 'steps': [
+                        {'op': 'sleep', 'd': draw(st.sampled_from([0.5, 1, 1.5]))}, {'op': 'raise', 'eid': 1, 'cls': 'K'}]}]}
+                    ops.append({'k': 'fail', 'prog': cut})
+                    ops.append({'k': 'ok', 'prog': {'start': 0, 'objs': {}, 'roots': [copy.deepcopy(waiter)]}})
             elif k == 'gc_inside':
                 p = {'start': 0, 'objs': {}, 'roots': [{'name': 'g0', 'steps': [{'op': 'sleep', 'd': 1}, {'op': 'gc_collect'},
                                                                                 {'op': 'sleep', 'd': 1}, {'op': 'instant'}]},
